@@ -54,11 +54,21 @@ theorem timeGrid_sorted_nodup (l : List ℚ) : (timeGrid l).Pairwise (· ≤ ·)
 
 variable {Rng Out : Type} (M : RngModel Rng Out)
 
-/-- **the path-based pool does not depend on the state of the global generator beforehand** -/
+/-- **the path-based pool does not depend on the state of the global generator beforehand**.
+
+    Audit note: this is an `rfl`-level statement, true by construction of the dataflow model: the getter's
+    result is a function that does not take the incoming generator state as an argument (`getPathBased M r`
+    discards `r` and reseeds).  The content is the shape of the model, which the subprocess test of the
+    correspondence run ties to the code; no property of the generator is proved here. -/
 theorem getPathBased_rng_independent (r₁ r₂ : Rng) : getPathBased M r₁ = getPathBased M r₂ := rfl
 
 /-- **the random-instance generator reproduces the same instance for the same explicit seed** (with
-    `reset_seed`, whatever was drawn before; and for a freshly constructed generator object) -/
+    `reset_seed`, whatever was drawn before; and for a freshly constructed generator object).
+
+    Audit note: this is an `rfl`-level statement, true by construction of the dataflow model: the sampled
+    instance is a function of the seed only (the incoming state `r` is overwritten by the seeding before any
+    draw).  The content is the shape of the model, which the subprocess test of the correspondence run ties
+    to the code; no property of the generator is proved here. -/
 theorem randomMirp_same_seed_same_instance (seed : ℕ) (r₁ r₂ : Rng) :
     randomMirp M seed true r₁ = randomMirp M seed true r₂ ∧ randomMirpFresh M seed r₁ = randomMirpFresh M seed r₂ :=
   ⟨rfl, rfl⟩
